@@ -44,7 +44,7 @@ ASSUMPTIONS = [
 MUST_REACH = {"events": 5000, "acks_translated_after_injection": 50, "acks_for_injected_swallowed": 50,
               "drops_with_piggybacked_acks": 20, "proxy_acks_for_dropped_reliable": 20, "resends_observed": 50,
               "budgets_exhausted": 5, "completions_by_ack": 50, "packetack_with_appended_acks": 20, "states": 300,
-              "older_ack_after_second_injection": 10, "protocol_level_events": 2000, "taken_reliable_sent_later": 50, "endpoint_retransmissions": 50, "retransmissions_dropped": 5}
+              "older_ack_after_second_injection": 10, "protocol_level_events": 2000, "taken_reliable_sent_later": 50, "endpoint_retransmissions": 50, "retransmissions_dropped": 5, "walks_with_fractional_resend_interval": 10}
 
 _ser = UDPMessageSerializer()
 _es = Settings()
@@ -56,6 +56,7 @@ _eager = UDPMessageDeserializer(settings=_es2)
 
 OUT, IN = Direction.OUT, Direction.IN
 RESEND_EVERY = 3.0
+CURRENT = {"resend_every": RESEND_EVERY}     # the interval the next run's circuit is configured with
 
 ACTIONS = []
 for side in ("V", "S"):
@@ -66,7 +67,7 @@ for side in ("V", "S"):
         ACTIONS.append(f"{side}P{mode}")
 ACTIONS += ["IOr", "IOu", "IIr", "IIu", "D", "T1", "T3"]
 # walks (not the exhaustive part) also let the proxy TAKE an endpoint's reliable packet and send the copy itself
-WALK_ACTIONS = ACTIONS + ["VT", "ST", "VX", "SX", "VY", "SY"]
+WALK_ACTIONS = ACTIONS + ["VT", "ST", "VX", "SX", "VY", "SY", "Th"]
 
 
 class RecTransport(AbstractUDPTransport):
@@ -103,6 +104,7 @@ class Model:
         self.tries = tries
         self.injections_total = 0
         self.drops_total = 0
+        self.resend_every = RESEND_EVERY
 
     def orig(self, direction, wire_id):
         return wire_id - sum(1 for i in self.inj[direction] if i < wire_id)
@@ -136,9 +138,10 @@ class Run:
         self.ctx = ctx
         self.transport = RecTransport()
         self.circuit = ProxiedCircuit(("10.0.0.1", 1), ("10.1.0.1", 2), self.transport)
-        self.circuit.resend_every = RESEND_EVERY
+        self.circuit.resend_every = CURRENT["resend_every"]
         self.far_addr, self.near_addr = self.circuit.host, self.circuit.near_host
         self.model = Model(tries)
+        self.model.resend_every = CURRENT["resend_every"]
         self.path = []
         self.ok = True
 
@@ -442,7 +445,7 @@ class Run:
         ems = self.take_emissions()
         expected = []
         for (d, w), ent in list(m.unacked.items()):
-            if m.now - ent[0] >= RESEND_EVERY - 1e-9:
+            if m.now - ent[0] >= m.resend_every - 1e-9:
                 ent[1] -= 1
                 if ent[1] == 0:
                     del m.unacked[(d, w)]
@@ -489,6 +492,8 @@ class Run:
             return self.tick(1.0)
         if action == "T3":
             return self.tick(3.0)
+        if action == "Th":
+            return self.tick(0.8)
         if action[0] == "I":
             return self.inject(OUT if action[1] == "O" else IN, action[2] == "r")
         who = action[0]
@@ -546,8 +551,9 @@ class ProtocolRun(Run):
         if exc is not None:
             raise exc
         self.circuit = self.session.regions[0].circuit
-        self.circuit.resend_every = RESEND_EVERY
+        self.circuit.resend_every = CURRENT["resend_every"]
         self.model = Model(tries)
+        self.model.resend_every = CURRENT["resend_every"]
         v = self.model.sides["V"]
         v.next_id = 2
         v.sent_ids.add(1)
@@ -659,6 +665,10 @@ def dfs(ctx, depth, first_actions, tries):
 def random_walk(ctx, rng, steps, tries, profile="mixed", backend="circuit"):
     clock = VirtualClock().install()
     run = None
+    # the resend interval is the caller's to choose: the default (3 s) and a fractional one
+    CURRENT["resend_every"] = rng.choice([RESEND_EVERY, RESEND_EVERY, 1.5])
+    if CURRENT["resend_every"] != RESEND_EVERY:
+        ctx.count("walks_with_fractional_resend_interval")
     try:
         run = (ProtocolRun if backend == "protocol" else Run)(ctx, tries)
         run.backend = backend
@@ -666,7 +676,7 @@ def random_walk(ctx, rng, steps, tries, profile="mixed", backend="circuit"):
         weights = [3 if a[0] in "VS" else 4 if a == "D" else 2 for a in WALK_ACTIONS]
         if profile == "timers":
             # several injected reliable packets outstanding at once, fine-grained clock, few acks
-            weights = [{"IOr": 6, "IIr": 6, "T1": 14, "T3": 3, "VT": 3, "ST": 3}.get(a, 2 if a[0] in "VS" and a.endswith("-") else
+            weights = [{"IOr": 6, "IIr": 6, "T1": 10, "Th": 8, "T3": 3, "VT": 3, "ST": 3}.get(a, 2 if a[0] in "VS" and a.endswith("-") else
                                                                                      1 if a[0] in "VS" and len(a) > 2 and a[2] == "o" else 0)
                        for a in WALK_ACTIONS]
         for _ in range(steps):
@@ -681,6 +691,7 @@ def random_walk(ctx, rng, steps, tries, profile="mixed", backend="circuit"):
         return run.path
     finally:
         clock.uninstall()
+        CURRENT["resend_every"] = RESEND_EVERY
         if run is not None:
             run.close()
 
